@@ -215,6 +215,9 @@ class AbsMachine:
                 if v is None:
                     return False
                 return UNKNOWN
+            if isinstance(e.func, ast.Name) and e.func.id == "bool" and len(e.args) == 1:
+                t = truth(self.ev(e.args[0], env, chosen))
+                return UNKNOWN if t is None else t
             for a in e.args:
                 self.ev(a, env, chosen)
             return UNKNOWN
